@@ -5,6 +5,7 @@
 EXTENDS O2OValidate, O2ORepeat
 
 CONSTANTS MaxTraits, MaxMembers,
+          PipeNames,                 \* the trait instruction names the author may use (a subset of TraitNames)
           RepeatConflictIsError,     \* FALSE = as implemented today (panic!), TRUE = repaired
           AnyOrder                   \* TRUE: impls may be emitted in any order (trace validation); FALSE: one canonical order (model checking)
 
@@ -17,12 +18,14 @@ VARIABLES
   pending, impls         \* impl descriptors to emit / emitted (a sequence: the emission order)
 vars == <<in, pc, ti, traits, mi, fctx, merged, errors, pending, impls>>
 
-TNames == {"from_owned", "owned_try_into", "map"}
+TNames == PipeNames
+ASSUME PipeNames \subseteq TraitNames
 \* the author's type always carries a (possibly unused) #[child_parents(..)], so that #[child] members are not a class 8 fault
 ChildParents == [n |-> "child_parents", cp |-> "-", own |-> FALSE]
 \* the validation view of a member that writes the instruction categories o (in the order they are printed: child, map)
 MView(o) == (IF "child" \in o THEN << [n |-> "child", cp |-> "-", own |-> FALSE] >> ELSE <<>>) \o (IF "map" \in o THEN << [n |-> "map", cp |-> "-", own |-> FALSE] >> ELSE <<>>)
-Init == /\ in = [dt |-> "struct", shape |-> "named", traits |-> <<>>, tattrs |-> << ChildParents >>, ms |-> <<>>, rms |-> <<>>]
+\* ... or not: then a #[child] member is a class 8 fault for every counterpart with an Into conversion, reported by Validate
+Init == /\ \E withcp \in BOOLEAN : in = [dt |-> "struct", shape |-> "named", traits |-> <<>>, tattrs |-> (IF withcp THEN << ChildParents >> ELSE <<>>), ms |-> <<>>, rms |-> <<>>]
         /\ pc = "author" /\ ti = 1 /\ traits = <<>> /\ mi = 1 /\ fctx = 0 /\ merged = <<>>
         /\ errors = <<>> /\ pending = {} /\ impls = <<>>
 
